@@ -20,6 +20,11 @@ def _overlap(b, e, transform=None):
     return overlap_integral(b, transform=transform)
 
 
+def _overlap_screened(b, e, transform=None):
+    from gbasis.integrals.overlap import overlap_integral
+    return overlap_integral(b, transform=transform, tol_screen=1e-8)
+
+
 def _kinetic(b, e, transform=None):
     from gbasis.integrals.kinetic_energy import kinetic_energy_integral
     return kinetic_energy_integral(b, transform=transform)
@@ -75,6 +80,7 @@ def _evalderiv(orders, dt="general"):
 # name -> (callable, number of basis axes, cost class)
 FUNCS = {
     "overlap": (_overlap, 2, 1),
+    "overlap(tol_screen=1e-8)": (_overlap_screened, 2, 1),
     "kinetic": (_kinetic, 2, 1),
     "momentum": (_momentum, 2, 1),
     "angular_momentum": (_angmom, 2, 1),
